@@ -2,8 +2,8 @@
   LucidProofs.Lemmas.JoinGates — `word_match` (`matching/word_match.rs`, model `Lucid.wordMatch`) on a pair of words
   one of which is the other with ONE extra character of the cheap class `notAlpha` (a separator) inserted:
   * `DL.D_ins`              — the distance between the two words is exactly the cost of that character (0.5);
-  * `lengthCheck_near`, `jaccardCheck_ins_*` — the length and Jaccard gates let the pair through;
-  * `Acc`, `wmInner_acc_some`, `wmOuter_inv_acc`, `wmInner_keep`, `wmInner_only` — which pair of slices the two
+  * `lengthCheck_off_by_one`, `jaccardCheck_ins_*` — the length and Jaccard gates let the pair through;
+  * `AccSlice`, `wmInner_acc_some`, `wmOuter_inv_acc`, `wmInner_keep`, `wmInner_only` — which pair of slices the two
     loops of `word_match` return (strengthening of `wordMatch_inv`: the guards the winner passed are recorded, an
     earlier best with no more typos is kept);
   * `wordMatchM_split`      — title word `xy` against the joined query words `x␣y`: a match whose query part
@@ -148,7 +148,7 @@ theorem joinNumsOK_spec {K : Consts} (h : JoinNumsOK K = true) :
 
 /-! ### the length gate: lengths ≥ 3 differing by at most one -/
 
-theorem lengthCheck_near (K : Consts) (hJ : JoinNumsOK K = true) (r q : WordShape)
+theorem lengthCheck_off_by_one (K : Consts) (hJ : JoinNumsOK K = true) (r q : WordShape)
     (hq : 3 ≤ q.len) (hr : 3 ≤ r.len) (hn1 : q.len ≤ r.len + 1) (hn2 : r.len ≤ q.len + 1) :
     lengthCheck K r q = true := by
   obtain ⟨_, hL, _, _⟩ := joinNumsOK_spec hJ
@@ -171,7 +171,7 @@ theorem lengthCheck_near (K : Consts) (hJ : JoinNumsOK K = true) (r q : WordShap
 
 /-! ### the Jaccard gate: one extra character -/
 
-theorem jaccardSlice_full (rt : Text) (r q : WordShape) (hlen : (wchars rt r).length = r.len)
+theorem jaccardSlice_whole (rt : Text) (r q : WordShape) (hlen : (wchars rt r).length = r.len)
     (h : r.len ≤ q.len + 1) : jaccardSlice rt r q = wchars rt r := by
   unfold jaccardSlice
   split
@@ -202,7 +202,7 @@ theorem jaccard_ins_arith (K : Consts) (hN : GateNumsOK K = true) (x y : List Na
       unfold distinctCard
       rw [natSet_congr (l := x ++ s :: y) (l' := (x ++ y) ++ [s])]
       intro c
-      simp only [List.mem_append, List.mem_cons, List.mem_singleton, List.not_mem_nil, or_false]
+      simp only [List.mem_append, List.mem_cons, List.not_mem_nil, or_false]
       constructor
       · rintro (h | h | h)
         · exact Or.inl (Or.inl h)
@@ -222,7 +222,7 @@ theorem jaccardCheck_ins_record (K : Consts) (hN : GateNumsOK K = true) (rt : Te
     (hne : x ++ y ≠ []) (hlen : (wchars rt r).length = r.len) (hle : r.len ≤ q.len + 1) :
     jaccardCheck K rt r qt q = true := by
   unfold jaccardCheck
-  rw [jaccardSlice_full rt r q hlen hle, hr, hq]
+  rw [jaccardSlice_whole rt r q hlen hle, hr, hq]
   simp only [decide_eq_true_eq]
   exact jaccard_ins_arith K hN x y s hne
 
@@ -232,14 +232,14 @@ theorem jaccardCheck_ins_query (K : Consts) (hN : GateNumsOK K = true) (rt : Tex
     (hne : x ++ y ≠ []) (hlen : (wchars rt r).length = r.len) (hle : r.len ≤ q.len + 1) :
     jaccardCheck K rt r qt q = true := by
   unfold jaccardCheck
-  rw [jaccardSlice_full rt r q hlen hle, hr, hq, C17_symm]
+  rw [jaccardSlice_whole rt r q hlen hle, hr, hq, C17_symm]
   simp only [decide_eq_true_eq]
   exact jaccard_ins_arith K hN x y s hne
 
 /-! ### which pair of slices the two loops return -/
 
 /-- the pair `(qs, rs)` passes every `continue` guard of the inner loop and the relative-distance threshold -/
-structure Acc (c : WMCtx) (qs rs : Nat) : Prop where
+structure AccSlice (c : WMCtx) (qs rs : Nat) : Prop where
   q_le : qs ≤ c.q.len
   r_le : rs ≤ c.r.len
   stem : c.q.stem ≤ qs
@@ -250,9 +250,9 @@ structure Acc (c : WMCtx) (qs rs : Nat) : Prop where
 /-- the `break` guard does not fire for this record slice -/
 def NoBrk (c : WMCtx) (rs : Nat) : Prop := ¬ (c.q.fin = true ∧ rs < c.r.stem)
 
-/-- the inner loop for `rs` returns a `some` if its range contains a `qs` with `Acc c qs rs` and the `break`
+/-- the inner loop for `rs` returns a `some` if its range contains a `qs` with `AccSlice c qs rs` and the `break`
     guard does not fire -/
-theorem wmInner_acc_some (c : WMCtx) (qs rs : Nat) (hz : Acc c qs rs) (hnb : NoBrk c rs) :
+theorem wmInner_acc_some (c : WMCtx) (qs rs : Nat) (hz : AccSlice c qs rs) (hnb : NoBrk c rs) :
     ∀ (l : List Nat) (best : Option (WMatch × WMatch)), qs ∈ l → wmInner c rs l best ≠ none := by
   intro l
   induction l with
@@ -278,7 +278,7 @@ theorem wmInner_acc_some (c : WMCtx) (qs rs : Nat) (hz : Acc c qs rs) (hnb : NoB
       unfold wmInner
       grind
 
-theorem wmOuter_acc_some (c : WMCtx) (qs rs : Nat) (hz : Acc c qs rs) (hnb : NoBrk c rs) (range : List Nat)
+theorem wmOuter_acc_some (c : WMCtx) (qs rs : Nat) (hz : AccSlice c qs rs) (hnb : NoBrk c rs) (range : List Nat)
     (hq : qs ∈ range) :
     ∀ (l : List Nat) (best : Option (WMatch × WMatch)), rs ∈ l → wmOuter c range l best ≠ none := by
   intro l
@@ -297,7 +297,7 @@ theorem wmOuter_acc_some (c : WMCtx) (qs rs : Nat) (hz : Acc c qs rs) (hnb : NoB
 /-- strengthened `wmInner_inv`: a property of all `new_pair`s of ACCEPTED slice pairs (with the cell as typos)
     holds of every result -/
 theorem wmInner_inv_acc (c : WMCtx) (P : WMatch × WMatch → Prop)
-    (hnew : ∀ rs qs, Acc c qs rs → P (newPair c.K c.r c.q rs qs (c.cell qs rs))) (rslice : Nat)
+    (hnew : ∀ rs qs, AccSlice c qs rs → P (newPair c.K c.r c.q rs qs (c.cell qs rs))) (rslice : Nat)
     (l : List Nat) (best : Option (WMatch × WMatch)) (hb : ∀ p, best = some p → P p) :
     ∀ p, wmInner c rslice l best = some p → P p := by
   induction l generalizing best with
@@ -344,7 +344,7 @@ theorem wmInner_inv_acc (c : WMCtx) (P : WMatch × WMatch → Prop)
     · rw [if_neg g8] at hp; exact ih _ hb' p hp
 
 theorem wmOuter_inv_acc (c : WMCtx) (P : WMatch × WMatch → Prop)
-    (hnew : ∀ rs qs, Acc c qs rs → P (newPair c.K c.r c.q rs qs (c.cell qs rs))) (range : List Nat) :
+    (hnew : ∀ rs qs, AccSlice c qs rs → P (newPair c.K c.r c.q rs qs (c.cell qs rs))) (range : List Nat) :
     ∀ (l : List Nat) (best : Option (WMatch × WMatch)), (∀ p, best = some p → P p) →
       ∀ p, wmOuter c range l best = some p → P p := by
   intro l
@@ -365,7 +365,7 @@ theorem newPair_typos (K : Consts) (r q : WordShape) (rs qs d : Nat) : (newPair 
 
 /-- one step of the inner loop on a pair that is not accepted: `continue`, or `break` if the `break` guard fires -/
 theorem wmInner_step_skip (c : WMCtx) (rs x : Nat) (rest : List Nat) (best : Option (WMatch × WMatch))
-    (h : ¬ Acc c x rs) :
+    (h : ¬ AccSlice c x rs) :
     wmInner c rs (x :: rest) best = wmInner c rs rest best ∨
     (¬ NoBrk c rs ∧ wmInner c rs (x :: rest) best = best) := by
   conv => enter [1, 1]; unfold wmInner
@@ -390,7 +390,7 @@ theorem wmInner_step_skip (c : WMCtx) (rs x : Nat) (rest : List Nat) (best : Opt
 
 /-- one step of the inner loop on an accepted pair -/
 theorem wmInner_step_acc (c : WMCtx) (rs x : Nat) (rest : List Nat) (best : Option (WMatch × WMatch))
-    (h : Acc c x rs) :
+    (h : AccSlice c x rs) :
     wmInner c rs (x :: rest) best =
       if c.q.fin = true ∧ rs < c.r.stem then best
       else if c.cell x rs = 0 then updBest best (newPair c.K c.r c.q rs x (c.cell x rs))
@@ -408,14 +408,14 @@ theorem updBest_keep (p np : WMatch × WMatch) (h : p.1.typos ≤ np.1.typos) : 
 
 /-- a best pair is kept by the inner loop if no accepted pair of the remaining range has fewer typos -/
 theorem wmInner_keep (c : WMCtx) (rs : Nat) (p : WMatch × WMatch) :
-    ∀ (l : List Nat), (∀ qs ∈ l, Acc c qs rs → p.1.typos ≤ c.cell qs rs) → wmInner c rs l (some p) = some p := by
+    ∀ (l : List Nat), (∀ qs ∈ l, AccSlice c qs rs → p.1.typos ≤ c.cell qs rs) → wmInner c rs l (some p) = some p := by
   intro l
   induction l with
   | nil => intro _; simp [wmInner]
   | cons x rest ih =>
     intro h
     have ih' := ih (fun qs hqs => h qs (List.mem_cons_of_mem _ hqs))
-    by_cases ha : Acc c x rs
+    by_cases ha : AccSlice c x rs
     · rw [wmInner_step_acc c rs x rest _ ha,
         updBest_keep p _ (by rw [newPair_typos]; exact h x (List.mem_cons_self) ha)]
       split
@@ -428,7 +428,7 @@ theorem wmInner_keep (c : WMCtx) (rs : Nat) (p : WMatch × WMatch) :
       · exact e
 
 theorem wmOuter_keep (c : WMCtx) (range : List Nat) (p : WMatch × WMatch) :
-    ∀ (l : List Nat), (∀ rs ∈ l, ∀ qs ∈ range, Acc c qs rs → p.1.typos ≤ c.cell qs rs) →
+    ∀ (l : List Nat), (∀ rs ∈ l, ∀ qs ∈ range, AccSlice c qs rs → p.1.typos ≤ c.cell qs rs) →
       wmOuter c range l (some p) = some p := by
   intro l
   induction l with
@@ -441,8 +441,8 @@ theorem wmOuter_keep (c : WMCtx) (range : List Nat) (p : WMatch × WMatch) :
 
 /-- if exactly one `qs` of the range is accepted for `rs` (and the `break` guard does not fire), the inner loop
     started without a best pair returns that pair -/
-theorem wmInner_only (c : WMCtx) (rs qs : Nat) (ha : Acc c qs rs) (hnb : NoBrk c rs) :
-    ∀ (l : List Nat), (∀ x ∈ l, x ≠ qs → ¬ Acc c x rs) → qs ∈ l →
+theorem wmInner_only (c : WMCtx) (rs qs : Nat) (ha : AccSlice c qs rs) (hnb : NoBrk c rs) :
+    ∀ (l : List Nat), (∀ x ∈ l, x ≠ qs → ¬ AccSlice c x rs) → qs ∈ l →
       wmInner c rs l none = some (newPair c.K c.r c.q rs qs (c.cell qs rs)) := by
   intro l
   induction l with
@@ -507,7 +507,7 @@ theorem descRange_succ (left n : Nat) (h : left ≤ n) : descRange left (n + 1) 
   unfold descRange
   have : n + 1 - left = (n - left) + 1 := by omega
   rw [this, List.range'_concat, List.reverse_append]
-  simp only [List.reverse_cons, List.reverse_nil, List.nil_append, List.singleton_append, Nat.mul_one]
+  simp only [List.reverse_cons, List.reverse_nil, List.nil_append, List.singleton_append]
   congr 1; omega
 
 /-! ### the inserted separator costs half a typo -/
@@ -573,7 +573,7 @@ theorem wordMatchM_joined (K : Consts) (hC : CostsOK K = true) (hJ : JoinNumsOK 
     intro e; have := congrArg List.length e; rw [List.length_append, hx, hy] at this; simp at this; omega
   have hy' : wchars rt w2 ≠ [] := by
     intro e; have := congrArg List.length e; rw [hy] at this; simp at this; omega
-  have hlc : lengthCheck K (w1.join w2) v = true := lengthCheck_near K hJ _ _ hL (by omega) (by omega) (by omega)
+  have hlc : lengthCheck K (w1.join w2) v = true := lengthCheck_off_by_one K hJ _ _ hL (by omega) (by omega) (by omega)
   have hjc : jaccardCheck K rt (w1.join w2) qt v = true :=
     jaccardCheck_ins_record K hN rt _ qt v _ _ sep hr hchars hne (wchars_length hrin) (by omega)
   have hleft : wmLeftRaw (w1.join w2) v - 1 ≤ v.len ∧ v.len - 1 ≤ wmLeftRaw (w1.join w2) v - 1 := by
@@ -609,7 +609,7 @@ theorem wordMatchM_joined (K : Consts) (hC : CostsOK K = true) (hJ : JoinNumsOK 
     intro qs rs h1 h2
     rw [← hc]; exact wmCtx_cell K hC m hm rt _ qt v hrin hv qs rs h1 (by omega)
   -- only `qslice = |v|` can be accepted
-  have honly : ∀ qs rs, Acc c qs rs → qs = v.len := by
+  have honly : ∀ qs rs, AccSlice c qs rs → qs = v.len := by
     intro qs rs ha
     have h1 := ha.q_le; have h2 := ha.stem
     rw [hcq] at h1 h2; omega
@@ -623,7 +623,7 @@ theorem wordMatchM_joined (K : Consts) (hC : CostsOK K = true) (hJ : JoinNumsOK 
     conv => lhs; arg 3; rw [hR']
     rfl
   rw [hstep]
-  have hacc : Acc c v.len (v.len + 1) := by
+  have hacc : AccSlice c v.len (v.len + 1) := by
     refine ⟨by rw [hcq]; exact Nat.le_refl _, by rw [hcr]; omega, by rw [hcq]; omega, by omega, ?_, ?_⟩
     · have : ¬ (v.len ≥ v.len + 1) := by omega
       simp only [this, if_false]; omega
@@ -673,7 +673,7 @@ theorem wordMatchM_split (K : Consts) (hC : CostsOK K = true) (hJ : JoinNumsOK K
     simp only [WordShape.join] at *; omega
   have hne : wchars qt q0 ++ wchars qt q1 ≠ [] := by
     intro e; have := congrArg List.length e; rw [List.length_append, hx, hy] at this; simp at this; omega
-  have hlc : lengthCheck K w (q0.join q1) = true := lengthCheck_near K hJ _ _ (by omega) hn (by omega) (by omega)
+  have hlc : lengthCheck K w (q0.join q1) = true := lengthCheck_off_by_one K hJ _ _ (by omega) hn (by omega) (by omega)
   have hjc : jaccardCheck K rt w qt (q0.join q1) = true :=
     jaccardCheck_ins_query K hN rt w qt _ _ _ sep hchars.symm hq hne (wchars_length hw) (by omega)
   have hleft : wmLeftRaw w (q0.join q1) - 1 ≤ w.len := by
@@ -696,7 +696,7 @@ theorem wordMatchM_split (K : Consts) (hC : CostsOK K = true) (hJ : JoinNumsOK K
   have hcK : c.K = K := by rw [← hc]; rfl
   have hcell : c.cell (w.len + 1) w.len = 5 := by
     rw [← hc, wmCtx_cell K hC m hm rt w qt _ hw hqin _ _ (by omega) (Nat.le_refl _)]; exact hD5
-  have hacc : Acc c (w.len + 1) w.len := by
+  have hacc : AccSlice c (w.len + 1) w.len := by
     refine ⟨by rw [hcq]; omega, by rw [hcr]; exact Nat.le_refl _, by rw [hcq]; omega, by omega, ?_, ?_⟩
     · have : w.len + 1 ≥ w.len := by omega
       simp only [this, if_true]; omega
